@@ -429,3 +429,14 @@ load_enums()
 
 def enum_values(short):
     return [EnumVal(short, m, v) for m, v in core.ENUMS[short]]
+
+
+# constructor class facts (ASSUMED, instantiated on the terms that occur in a query) ---------------
+def _rel_axiom(app):
+    return [sp_cls(app) == SP_CLASSES.index("Relational")]
+
+
+for _r in ("Gt", "Lt", "Ge", "Le", "Eq", "Ne"):
+    core.TERM_AXIOMS["sp." + _r] = _rel_axiom
+core.TERM_AXIOMS["sp.Pow"] = lambda app: [sp_cls(app) == SP_CLASSES.index("Pow")]
+core.TERM_AXIOMS["sp.Symbol"] = lambda app: [sp_cls(app) == SP_CLASSES.index("Symbol")]
